@@ -35,6 +35,12 @@
 (*                shifted back, all clauses are shift-equivariant           *)
 (*   cls=refit    data sets for which Lloyd.tla reaches an empty cluster,   *)
 (*                refitted many times; mult = multiplicity of the outcome   *)
+(*   cls=ladder   one predict call on N rows, N around 64 .. 1024 and larger *)
+(*                (internal block sizes), alternately through the inherent  *)
+(*                methods and the api traits (entry)                        *)
+(*   cls=geo      geometric coordinates (very deep BBD tree), see           *)
+(*                KMeansProps: FitGeoClause; event BbdGeo for the filtering *)
+(*                step on such data                                         *)
 (*   cls=swap     data sets for which Lloyd.tla shows a sweep exchanging    *)
 (*                members of a cluster at constant count and coordinate     *)
 (*                total, refitted many times; cls=comp: other "composition" *)
@@ -87,7 +93,7 @@ VARIABLES l, nbad, hits, nt, drift, empties
 vars == <<l, nbad, hits, nt, drift, empties>>
 
 HitNames == {"KMFit", "FitLattice", "FitCont", "FitF32", "Means", "PredictFx", "PredictExact", "PredictTie",
-             "EmptyCluster", "Unconstrained", "FitNotOk", "FitModel", "FitOffset", "FitOffsetExact", "BbdOffset", "ProbeEmpty", "FitSwap", "FitComp", "PredictBackend",
+             "EmptyCluster", "Unconstrained", "FitNotOk", "FitModel", "FitOffset", "FitOffsetExact", "BbdOffset", "ProbeEmpty", "FitSwap", "FitComp", "PredictBackend", "FitGeo", "BbdGeo", "PredictLadder", "TraitEntry",
              "Bbd", "BbdTie", "BbdCoincident", "BbdEmpty", "BbdRational", "BbdModel", "Drift"}
 
 AllPositive(v) == \A c \in 1..Len(v) : v[c] > 0
@@ -124,6 +130,37 @@ FitClause2(e, sums) ==
          THEN "PredictBackend"
     ELSE ""
 
+(* geometric family (cls = "geo"): column 1 of X holds exponents; the lattice columns
+   are judged at 2^-12 as usual, the geometric column through (g0man, g0exp); the predict
+   clause is not decided there (labels only checked for range) *)
+FitGeoClause2(e, sums) ==
+    IF ~SizesOK(e.y, e.size, e.n, e.k) THEN "Sizes"
+    ELSE IF ~ShapeOK(e.cfx, e.k, e.d) THEN "Shape"
+    ELSE IF ~MeansFxFrom(sums, e.size, e.cfx, e.xs, e.k, e.d) THEN "Means"
+    ELSE IF ~(e.g0ok /\ GeoMeansOK(e.X, e.y, e.size, e.g0man, e.g0exp, e.k)) THEN "MeansGeo"
+    ELSE IF e.pstatus # "ok" THEN "PredictStatus"
+    ELSE IF ~(Len(e.pred) = e.n /\ \A i \in 1..e.n : e.pred[i] \in 0..(e.k - 1)) THEN "PredictRange"
+    ELSE ""
+
+FitGeoClause(e) ==
+    IF e.status # "ok" THEN "FitStatus"
+    ELSE IF ~e.finite THEN "Finite"
+    ELSE IF ~e.inrange THEN "Finite"
+    ELSE IF ~LabelsOK(e.y, e.n, e.k) THEN "Labels"
+    ELSE FitGeoClause2(e, ClusterSums(e.X, e.y, e.k, e.d))
+
+BbdGeoClause2(e, cs) ==
+    IF ~GeoNearestOK(e.X, e.cg, e.member, e.n, e.k, e.d) THEN "Nearest"
+    ELSE IF ~CountsOK(e.member, e.counts, e.n, e.k) THEN "Counts"
+    ELSE IF ~(e.sumsOk /\ SumsFromOK(cs, e.sums, e.k, e.d)) THEN "Sums"
+    ELSE IF ~GeoSumsOK(e.X, e.member, e.counts, e.s0man, e.s0exp, e.k) THEN "SumsGeo"
+    ELSE ""
+
+BbdGeoClause(e) ==
+    IF e.status # "ok" THEN "BbdStatus"
+    ELSE IF ~LabelsOK(e.member, e.n, e.k) THEN "Nearest"
+    ELSE BbdGeoClause2(e, ClusterSums(e.X, e.member, e.k, e.d))
+
 FitClause(e) ==
     IF e.status # "ok" THEN "FitStatus"
     ELSE IF ~e.finite THEN "Finite"
@@ -144,6 +181,8 @@ FitTags(e) ==
          \* labelled -- admissibly, the event passed PredictFx -- with that memberless centroid
          \cup (IF \E i \in 1..Len(e.pred) : e.size[e.pred[i] + 1] = 0 THEN {"ProbeEmpty"} ELSE {})
          \cup (IF Len(e.alt) > 0 THEN {"PredictBackend"} ELSE {})
+         \cup (IF e.cls = "ladder" /\ Len(e.pred) > 512 THEN {"PredictLadder"} ELSE {})
+         \cup (IF e.cls = "ladder" /\ "entry" \in DOMAIN e /\ e.entry = "trait" THEN {"TraitEntry"} ELSE {})
          \cup (IF e.cls = "swap" THEN {"FitSwap"} ELSE {})
          \cup (IF e.cls = "comp" THEN {"FitComp"} ELSE {})
          \cup (IF e.offmax # 0 THEN {"FitOffset"} ELSE {})
@@ -212,6 +251,10 @@ Account(e, clause, tags) ==
 (* the clause is an operator ARGUMENT, hence evaluated once per event *)
 AccountFit(e, clause) ==
     Account(e, clause, IF clause = "" \/ clause = "FitStatus" THEN FitTags(e) ELSE {"KMFit"})
+AccountFitGeo(e, clause) ==
+    Account(e, clause, IF clause = "" THEN {"KMFit", "FitGeo"} ELSE {"KMFit"})
+AccountBbdGeo(e, clause) ==
+    Account(e, clause, IF clause = "" THEN {"BbdGeo"} ELSE {})
 AccountBbd(e, clause) ==
     Account(e, clause, IF clause = "" THEN BbdTags(e) ELSE {"Bbd"})
 
@@ -219,7 +262,9 @@ Step ==
     LET e == Rec[l] IN
     /\ l <= Len(Rec)
     /\ l' = l + 1
-    /\ CASE e.ev = "KMFit" -> AccountFit(e, FitClause(e))
+    /\ CASE e.ev = "KMFit" /\ e.cls = "geo" -> AccountFitGeo(e, FitGeoClause(e))
+         [] e.ev = "BbdGeo" -> AccountBbdGeo(e, BbdGeoClause(e))
+         [] e.ev = "KMFit" /\ e.cls # "geo" -> AccountFit(e, FitClause(e))
          [] e.ev = "Bbd" -> AccountBbd(e, BbdClause(e))
          [] OTHER -> Account(e, "unknown event", {})
 
